@@ -167,18 +167,23 @@ def normRoot (rcp : Bytes) : Bytes :=
   let r := if rcp.head? = some SL then rcp else SL :: rcp
   if r.getLast? = some SL then r else r ++ [SL]
 
+/-- `if not client_path.startswith("/"): client_path = "/" + client_path` -/
+def addSlash (cp : Bytes) : Bytes := if cp.head? = some SL then cp else SL :: cp
+
+/-- the body of `translate_client_path` once the client path starts with "/" -/
+def translateAbs (root : Bytes) (cp : Bytes) : Except Err Bytes :=
+  if cp ++ [SL] = root then .ok [DOT]
+  else if root.isPrefixOf cp then
+    match joinpathRoot (cp.drop root.length) with
+    | .error e => .error e
+    | .ok rel =>
+      if rel.head? = some SL then .ok (escape (DOT :: rel)) else .error .internal
+  else .error .notChild
+
 /-- `SmartServerRequest.translate_client_path` (root already normalised) -/
 def translate (root : Bytes) (cp : Bytes) : Except Err Bytes :=
   if !validUtf8 cp then .error .unicode
-  else
-    let cp := if cp.head? = some SL then cp else SL :: cp
-    if cp ++ [SL] = root then .ok [DOT]
-    else if root.isPrefixOf cp then
-      match joinpathRoot (cp.drop root.length) with
-      | .error e => .error e
-      | .ok rel =>
-        if rel.head? = some SL then .ok (escape (DOT :: rel)) else .error .internal
-    else .error .notChild
+  else translateAbs root (addSlash cp)
 
 /-- `VfsRequest.translate_client_path`.
 `fx = false`: as found — translate, then unescape the result.
